@@ -227,24 +227,24 @@ theorem session_worker_agrees (w : Session.World) (s : Session.SState) (p : Path
     (payload : Bytes) (chunks rest : List Bytes) (hv : ValidChunking bs payload chunks)
     (hdc : s.dataConn = true) (hp : p ≠ []) (hpar : w.fs.isDir p.dropLast = true) (hnd : w.fs.lookup p ≠ some .dir) :
     oldAt (Session.worker w s p v.toVerb payload).1.fs p
-        = storResult .memory (oldAt w.fs p) v s.restartOffset (chunks ++ [] :: rest)
+        = storResult .memory (oldAt w.fs p) v (Session.xferOffset v.toVerb s) (chunks ++ [] :: rest)
       ∧ (Session.worker w s p v.toVerb payload).2.2.replies = [226] :=
-  worker_stor_agrees w s p v payload _
+  worker_stor_agrees (Session.xferOffset v.toVerb s) w s p v payload _
     (by rw [iterByBlock_of_nonempty chunks rest (fun c hc => (hv.2 c hc).1), hv.1]) hdc hp hpar hnd
 
 /-- **later_sessions_see_upload.**  After the upload step, a RETR by ANY session state (another user, another
-    working directory, any restart offset `s₂.restartOffset`) on the same tree delivers exactly the specified
+    working directory, any offset handed to its transfer) on the same tree delivers exactly the specified
     content from that offset on, and the size a later `stat` reports (`Fs.size`) is its length -/
 theorem later_sessions_see_upload (w : Session.World) (s s₂ : Session.SState) (p : Path) (v : UpVerb)
     (payload : Bytes) (hdc : s.dataConn = true) (hdc₂ : s₂.dataConn = true) (hp : p ≠ [])
     (hpar : w.fs.isDir p.dropLast = true) (hnd : w.fs.lookup p ≠ some .dir) :
     let w' := (Session.worker w s p v.toVerb payload).1
-    let spec := storSpec ((oldAt w.fs p).getD []) v s.restartOffset payload
-    (Session.worker w' s₂ p .retr []).2.2.data = spec.drop s₂.restartOffset
+    let spec := storSpec ((oldAt w.fs p).getD []) v (Session.xferOffset v.toVerb s) payload
+    (Session.worker w' s₂ p .retr []).2.2.data = spec.drop (Session.xferOffset .retr s₂)
       ∧ (Session.worker w' s₂ p .retr []).2.2.replies = [226]
       ∧ w'.fs.size p = spec.length := by
   intro w' spec
-  have h := (worker_stor_agrees w s p v payload [payload, []]
+  have h := (worker_stor_agrees (Session.xferOffset v.toVerb s) w s p v payload [payload, []]
     (by by_cases hpl : payload = [] <;> simp [iterByBlock, hpl]) hdc hp hpar hnd).1
   rw [storResult_eq_spec .memory _ v _ _ (by simp)] at h
   have hflat : (iterByBlock [payload, []]).flatten = payload := by
@@ -252,8 +252,8 @@ theorem later_sessions_see_upload (w : Session.World) (s s₂ : Session.SState) 
   rw [hflat] at h
   have hl : w'.fs.lookup p = some (.file spec) := oldAt_eq_some h
   refine ⟨?_, ?_, ?_⟩
-  · simp [Session.worker, hdc₂, Fs.openFile, hl]
-  · simp [Session.worker, hdc₂, Fs.openFile, hl]
+  · simp [Session.worker, Session.workerK, hdc₂, Fs.openFile, hl]
+  · simp [Session.worker, Session.workerK, hdc₂, Fs.openFile, hl]
   · simp [Fs.size, hl]
 
 /-! ## generated-table obligations: the shape of the live source the model transcribes
@@ -263,7 +263,7 @@ open Generated.Transfer in
 /-- STOR opens with `wb`, APPE with `ab`, a truthy restart offset turns either into `r+b`; RETR opens `rb` -/
 theorem generated_modes :
     Mode.ofString storDefaultMode = some UpVerb.stor.mode ∧ Mode.ofString appeMode = some UpVerb.appe.mode
-    ∧ storModeSel = ("connection.restart_offset", "'r+b'", "mode") ∧ retrModeSel = ("", "'rb'", "'rb'") := by decide
+    ∧ storModeSel = ("connection.transfer_offset", "'r+b'", "mode") ∧ retrModeSel = ("", "'rb'", "'rb'") := by decide
 
 open Generated.Transfer in
 /-- `async with stream, file` in both workers: the stream is entered first and closed last (so the data
@@ -279,11 +279,11 @@ theorem generated_reply_after_with :
     ∧ retrAfterWith.head? = some "response:226" ∧ retrRepliesInsideWith = [] ∧ retrRepliesBeforeWith = [] := by decide
 
 open Generated.Transfer in
-/-- the loop bodies: conditional seek to the restart offset, then block iteration with `connection.block_size` -/
+/-- the loop bodies: conditional seek to the offset handed over at dispatch (`transfer_offset`), then block iteration with `connection.block_size` -/
 theorem generated_loop_bodies :
-    storWithBody = ["if connection.restart_offset:", "    await file.seek(connection.restart_offset)",
+    storWithBody = ["if connection.transfer_offset:", "    await file.seek(connection.transfer_offset)",
       "async for data in stream.iter_by_block(connection.block_size):", "    await file.write(data)"]
-    ∧ retrWithBody = ["if connection.restart_offset:", "    await file.seek(connection.restart_offset)",
+    ∧ retrWithBody = ["if connection.transfer_offset:", "    await file.seek(connection.transfer_offset)",
       "async for data in file.iter_by_block(connection.block_size):", "    await stream.write(data)"] := by decide
 
 open Generated.Transfer in
